@@ -11,7 +11,7 @@ From Coq Require Import String.
 From Coq Require Import List NArith Bool.
 Import ListNotations.
 From TV Require Import Lib.Obs Lib.C21_Utf8 C06.Model C07.PyTables C07.Model C07.Run
-  C07.ProofsBase C07.ProofsInv C07.Proofs.
+  C07.ProofsBase C07.ProofsInv C07.Proofs C07.ProofsRoutes.
 Local Open Scope N_scope.
 
 Definition env0 : text * text := (t "TornadoServer/6.6", t "Mon, 12 Jan 1970 13:46:40 GMT").
@@ -65,7 +65,7 @@ Print Assumptions C07_no_NUL_on_the_wire.
 
 (* the boolean checker applied to the implementation's observable accepts the model's own output *)
 Theorem C07_model_satisfies_checker :
-  forall env ops, env_ok env -> check_case (env, ops) (run_case (env, ops)) = true.
+  forall env ops, env_ok env -> check_case (env, Handler ops) (run_case (env, Handler ops)) = true.
 Proof. intros env ops He. exact (check_case_model env He ops). Qed.
 Print Assumptions C07_model_satisfies_checker.
 
@@ -111,4 +111,82 @@ Print Assumptions C07_redirect_rejects_unsafe_target.
    the call is accepted, the flush raises ValueError and nothing reaches the wire *)
 Example C07_nul_in_header_name_rejected_at_flush :
   run env0 [SetHeader (Str [88; 45; 65; 0; 98]) (Str (t "v"))] = ([Ok], Some (Err EValue), []).
+Proof. vm_compute. reflexivity. Qed.
+
+(* ================= routes 2 and 3: applications that reach write_headers without RequestHandler =================
+   Route 2 [run_raw c reason hs]: a low-level delegate application fills its own HTTPHeaders
+   (h[n] = v, unvalidated, or h.add(n, v)) and calls write_headers(ResponseStartLine(.., c, reason), h).
+   Route 3 [run_wsgi server status hs]: a WSGI application under WSGIContainer calls
+   start_response(status, hs).
+   Same statement as MAIN, at full strength (since fix 92da2a1 write_headers itself refuses every
+   character outside [\t\x20-\x7e\x80-\xff] in the reason and in every value): the call is rejected
+   and nothing is written, or the strict parser reads back exactly  HTTP/1.1 <code> <reason as given>
+   and, per accepted (name, value) pair, THE line normalised-name ": " value (plus the chunked marker /
+   the three WSGI defaults), nothing more, no body. *)
+Theorem C07_raw_header_block_is_exactly_the_intended_lines :
+  forall c rsn hs rs fin w, run_raw c rsn hs = (rs, fin, w) ->
+    length rs = length hs /\ (fin = Ok \/ w = []) /\
+    (w <> [] ->
+     exists start hls,
+       status_line c rsn = Some start /\
+       w = join CRLF (start :: hls) ++ CRLF ++ CRLF /\
+       strict_parse w = Some (start, hls) /\
+       forallb well_formed_header hls = true /\
+       Forall (fun l => In l (header_line (k_te, v_chunked) :: raw_lines hs rs)) hls /\
+       (length hls <= 1 + length (raw_lines hs rs))%nat).
+Proof. exact raw_block_exact. Qed.
+Print Assumptions C07_raw_header_block_is_exactly_the_intended_lines.
+Example C07_raw_nontrivial :
+  exists rs w, run_raw 404 (t "Not Here") [HSet (t "x-ab") (t "v 1"); HAdd (t "X-C") (t "w")] = (rs, Ok, w) /\ w <> [].
+Proof. eexists _, _. vm_compute. split; [reflexivity|discriminate]. Qed.
+
+Theorem C07_wsgi_header_block_is_exactly_the_intended_lines :
+  forall env status hs w, run_wsgi (fst env) status hs = w -> w <> [] ->
+    exists cs rsn c start hls,
+      split_sp status = Some (cs, rsn) /\ py_int cs = Some c /\
+      status_line c rsn = Some start /\
+      w = join CRLF (start :: hls) ++ CRLF ++ CRLF /\
+      strict_parse w = Some (start, hls) /\
+      forallb well_formed_header hls = true /\
+      Forall (fun l => In l (wsgi_consts env ++ map pair_line hs)) hls /\
+      (length hls <= 4 + length hs)%nat.
+Proof. exact wsgi_block_exact. Qed.
+Print Assumptions C07_wsgi_header_block_is_exactly_the_intended_lines.
+Example C07_wsgi_nontrivial :
+  run_wsgi (fst env0) (t "404 Not Here") [(t "x-ab", t "v 1")] <> [].
+Proof. vm_compute. discriminate. Qed.
+
+(* write_headers on its own: CR, LF, NUL, any C0 control but HTAB, DEL or a code point above U+00FF in the
+   reason, or in a stored header value, makes it raise before anything is written
+   (the guard on the reason is what seeded/C07_1 removes for CR/LF) *)
+Theorem C07_write_headers_rejects_unsafe_reason :
+  forall c rsn h ch, In ch rsn -> valid_hchar ch = false -> exists e, write_headers c rsn h = inl e.
+Proof. exact write_headers_rejects_unsafe_reason. Qed.
+Print Assumptions C07_write_headers_rejects_unsafe_reason.
+Theorem C07_write_headers_rejects_unsafe_value :
+  forall c rsn h k v ch, In (k, v) (pairs_of h) -> text_eqb k_te k = false -> In ch v -> valid_hchar ch = false ->
+    exists e, write_headers c rsn h = inl e.
+Proof. exact write_headers_rejects_unsafe_value. Qed.
+Print Assumptions C07_write_headers_rejects_unsafe_value.
+
+(* the full-strength checker accepts the model on both routes *)
+Theorem C07_routes_model_satisfies_checker :
+  forall env,
+    (forall c rsn hs, check_case (env, Raw c rsn hs) (run_case (env, Raw c rsn hs)) = true) /\
+    (forall status hs, check_case (env, Wsgi status hs) (run_case (env, Wsgi status hs)) = true).
+Proof. intro env. split; intros; [apply check_raw|apply check_wsgi]. Qed.
+Print Assumptions C07_routes_model_satisfies_checker.
+
+(* the former witnesses (NUL on the wire through these routes before 92da2a1) are now rejected *)
+Example C07_raw_nul_in_reason_rejected :
+  run_raw 200 [97; 0; 98] [] = ([], Err EValue, []).
+Proof. vm_compute. reflexivity. Qed.
+Example C07_raw_nul_in_value_rejected :
+  run_raw 204 (t "OK") [HSet (t "X") [118; 0]] = ([Ok], Err EValue, []).
+Proof. vm_compute. reflexivity. Qed.
+Example C07_wsgi_nul_in_reason_rejected :
+  run_wsgi (fst env0) (t "304 a" ++ [0]) [] = [].
+Proof. vm_compute. reflexivity. Qed.
+Example C07_raw_crlf_in_reason_rejected :
+  run_raw 200 (t "OK" ++ CRLF ++ t "Set-Cookie: x=y") [] = ([], Err EValue, []).
 Proof. vm_compute. reflexivity. Qed.
